@@ -137,11 +137,28 @@ pub struct RecProc {
     pub script: Vec<HAction>,
     pub invocations: usize,
     pub parse: Option<ParseFn>,
+    /// how the application hands its handler to `process_byte`: 0 = a struct implementing `CommandProcessor` (this one);
+    /// 1 = `RawCommand::processor(closure)` (the closure can only return sink errors: a parse / reject error of the script is
+    /// not expressible and the session generators do not combine them); 2 = a plain function through the blanket
+    /// `impl CommandProcessor for F: FnMut(..)`
+    pub pform: u8,
+}
+
+thread_local! {
+    static CUR_PROC: core::cell::Cell<*mut RecProc> = const { core::cell::Cell::new(core::ptr::null_mut()) };
+}
+
+/// handler form 2: a function item (closures cannot express the `for<'a>` link between the command and the error)
+fn fn_handler<'a>(cli: &mut CliHandle<'_, MonSink, SinkErr>, raw: RawCommand<'a>) -> Result<(), ProcessError<'a, SinkErr>> {
+    let p = CUR_PROC.with(|c| c.get());
+    assert!(!p.is_null());
+    // the pointer is set by Rig::byte for the duration of one process_byte call and nothing else touches the RecProc meanwhile
+    unsafe { (*p).process(cli, raw) }
 }
 
 impl RecProc {
     pub fn new(script: Vec<HAction>, parse: Option<ParseFn>) -> Self {
-        RecProc { log: Vec::new(), script, invocations: 0, parse }
+        RecProc { log: Vec::new(), script, invocations: 0, parse, pform: 0 }
     }
 }
 
@@ -333,7 +350,24 @@ impl<'b, C: Autocomplete + Help> Rig<'b, C> {
     }
 
     pub fn byte(&mut self, b: u8) -> Result<(), SinkErr> {
-        self.cli.process_byte::<C, _>(b, &mut self.proc)
+        match self.proc.pform {
+            1 => {
+                let p = &mut self.proc;
+                let mut pr = RawCommand::processor(|cli: &mut CliHandle<'_, MonSink, SinkErr>, raw: RawCommand<'_>| match p.process(cli, raw) {
+                    Ok(()) => Ok(()),
+                    Err(ProcessError::WriteError(e)) => Err(e),
+                    Err(ProcessError::ParseError(_)) => Ok(()),
+                });
+                self.cli.process_byte::<C, _>(b, &mut pr)
+            }
+            2 => {
+                CUR_PROC.with(|c| c.set(&mut self.proc as *mut RecProc));
+                let r = self.cli.process_byte::<C, _>(b, &mut fn_handler);
+                CUR_PROC.with(|c| c.set(core::ptr::null_mut()));
+                r
+            }
+            _ => self.cli.process_byte::<C, _>(b, &mut self.proc),
+        }
     }
 
     pub fn write(&mut self, calls: &[WCall]) -> Result<(), SinkErr> {
